@@ -104,6 +104,16 @@ class LinePostProcessor(PostProcessor):
         my_generator.generate_all(False, True, True, [c_style])
     """
 
+    def start_file(self) -> "LinePostProcessor":
+        """
+        Called by the generator before the first line of each generated file. Line post processors that keep state
+        between lines override this to start every file from the same state, so that the content of one file never
+        depends on the files generated before it.
+
+        :return: The post processor to use for the file (normally :code:`self`).
+        """
+        return self
+
     @abc.abstractmethod
     def __call__(self, line_and_lineend: typing.Tuple[str, str]) -> typing.Tuple[str, str]:
         """
@@ -216,6 +226,10 @@ class LimitEmptyLines(LinePostProcessor):
     def __init__(self, max_empty_lines: int):
         self._max_empty_lines = max_empty_lines
         self._empty_line_count = 0
+
+    def start_file(self) -> "LimitEmptyLines":
+        self._empty_line_count = 0
+        return self
 
     def __call__(self, line_and_lineend: typing.Tuple[str, str]) -> typing.Tuple[str, str]:
         if len(line_and_lineend[0]) == 0:
